@@ -913,6 +913,59 @@ _mk_tr_kw('fill')
 from t4_geom_convert.Kernel.Volume import ConstructVolumeT4 as _CVT4
 
 
+def _sym_tree(shape, nums, k=None):
+    """GeomExpression of the given shape whose leaves carry the symbolic surface numbers `nums` (consumed in order)."""
+    from MIP.geom.semantics import Surface, Cell, GeomExpression
+    k = k if k is not None else [0]
+    if shape == 's' or shape == 'f':
+        leaf = Surface(1, 2 if shape == 'f' else None)
+        leaf.surface = nums[k[0]]
+        k[0] += 1
+        return leaf
+    if shape == 'c':
+        return GeomExpression(('^', Cell('7')))
+    return GeomExpression((shape[0], _sym_tree(shape[1], nums, k), _sym_tree(shape[2], nums, k)))
+
+
+_TREE_SHAPES = ['s', 'f', ('*', 's', 's'), (':', 's', 'f'), ('*', ('*', 's', 's'), 's'), (':', 's', ('*', 'f', 's')),
+                ('*', 'c', 's'), ('*', (':', 's', 'c'), ('*', 's', 's')), (':', ('*', 's', (':', 's', 's')), 'c')]
+
+
+def _count(shape):
+    return 1 if shape in ('s', 'f') else 0 if shape == 'c' else _count(shape[1]) + _count(shape[2])
+
+
+@contract(_CVT4.extract_tr_surf_ids, props=['C04', 'C01'], name='ConstructVolumeT4.extract_tr_surf_ids[any-numbers]')
+class _ImplicitIdsP:
+    """For arbitrary (symbolic) signed surface numbers on the leaves of 9 expression shapes, in dictionaries of one and
+    two cells: a number is returned iff it is |n| of some referenced surface with |n| >= 1000 -- either sense, whole or
+    by facet, at any depth, next to complements of cells."""
+    def cases(S):
+        for i, sh in enumerate(_TREE_SHAPES):
+            yield f'shape{i}', {'shapes': (sh,), 'nums': S.ints([f'n{j}' for j in range(_count(sh))])}
+        for i in (2, 5, 7):
+            shs = (_TREE_SHAPES[i], _TREE_SHAPES[(i + 1) % len(_TREE_SHAPES)])
+            yield f'shapes{i}+{i + 1}', {'shapes': shs, 'nums': S.ints([f'n{j}' for j in range(sum(map(_count, shs)))])}
+
+    def requires(shapes, nums):
+        return And(*[n != 0 for n in nums])
+
+    def call(shapes, nums):
+        from t4_geom_convert.Kernel.Volume.CellMCNP import CellMCNP
+        k = [0]
+        cells = {10 + i: CellMCNP('0', None, _sym_tree(sh, nums, k), 1.0, 0, None, (), None, [], [])
+                 for i, sh in enumerate(shapes)}
+        return _CVT4.extract_tr_surf_ids(cells)
+
+    def ensures(result, shapes, nums):
+        from pyvc.sym import sabs
+        members = list(result.items) if hasattr(result, 'items') and not isinstance(result, (set, frozenset)) else list(result)
+        for j, n in enumerate(nums):
+            yield f'referenced-implicit-number-returned[{j}]', implies(sabs(n) >= 1000, Or(*[m == sabs(n) for m in members]))
+        for i, m in enumerate(members):
+            yield f'member-is-a-referenced-implicit-number[{i}]', Or(*[And(m == sabs(n), sabs(n) >= 1000) for n in nums])
+
+
 @contract(_CVT4.extract_tr_surf_ids, props=['C04', 'C01'], name='ConstructVolumeT4.extract_tr_surf_ids', status='B')
 class _ImplicitIds:
     """The implicit surface numbers (>= 1000) of a deck are exactly those referenced by some cell, in either sense,
